@@ -268,7 +268,7 @@ def verify_one(h, art, workdir, cap_t, cap_mem):
                    loc="%s:%s %s" % (p.get("sourceLocation", {}).get("file", "?"), p.get("sourceLocation", {}).get("line", "?"),
                                       p.get("sourceLocation", {}).get("function", "")[:80]))
         if st != "FAILURE":
-            res["reason"] = f"property status {st}"
+            res["reason"] = f"property status {st}" + (" (CBMC: solver ran out of memory at the cap)" if res.get("solver_oom") else "")
             res["failed"].append(rec)
             continue
         if cls == "unwind":
@@ -327,6 +327,8 @@ def _scrape_msg(t, res):
     m = re.match(r"Runtime Symex: ([\d.e+-]+)s", t)
     if m:
         res["symex_s"] = float(m.group(1))
+    if t.startswith("Solver ran out of memory"):
+        res["solver_oom"] = True
     m = re.match(r"size of program expression: (\d+) steps", t)
     if m:
         res["steps"] = int(m.group(1))
